@@ -517,7 +517,11 @@ pub fn run_case(prog: &Vec<Vec<Step>>, hist: &[Act]) -> Result<(), Fail> {
             let mut owners: Vec<&String> = model.deps.iter().filter(|(t, ds)| model.completed.contains(*t) && ds.iter().any(|d| (d.kind == "read" || d.kind == "write") && d.subject == subj)).map(|(t, _)| t).collect();
             owners.sort();
             for t in owners {
-              if !checked.contains(&t) && !waiting.contains(&t) { fail!("C09", "C09.bounded.reported_change_validates_every_reader_and_writer", "{} has a recorded dependency on {}, which was reported as changed, but that dependency was not checked", t, subj); }
+              if !checked.contains(&t) && !waiting.contains(&t) {
+                // if a check inside this bracket failed with an error, the error is what ended the validation of the others (C18)
+                if ev[s..en].iter().any(|e| e.kind == "check_read" && !e.start && e.verdict == "error") { fail!("C18", "C18.bounded.a_failed_check_does_not_end_the_validation_of_the_other_dependents", "{} has a recorded dependency on {}, which was reported as changed; the check of another dependent failed with an error and {} was never checked", t, subj, t); }
+                fail!("C09", "C09.bounded.reported_change_validates_every_reader_and_writer", "{} has a recorded dependency on {}, which was reported as changed, but that dependency was not checked", t, subj);
+              }
             }
             from = en + 1;
           }
@@ -540,6 +544,7 @@ pub fn run_case(prog: &Vec<Vec<Step>>, hist: &[Act]) -> Result<(), Fail> {
               owners.sort();
               for t in owners {
                 if !checked.contains(&t) && !waiting.contains(&t) && !stack.contains(&t) && !done.contains(&t) {
+                  if ev[i..en].iter().any(|x| x.kind == "check_read" && !x.start && x.verdict == "error") { fail!("C18", "C18.bounded.a_failed_check_does_not_end_the_validation_of_the_other_dependents", "{} has a recorded read of {}, which was written in this bottom-up build; the check of another reader failed with an error and {} was never checked", t, e.subject, t); }
                   fail!("C09", "C09.bounded.write_validates_every_reader", "{} has a recorded read of {}, which {} wrote in this bottom-up build, but that dependency was not checked", t, e.subject, done.last().map(|x| x.as_str()).unwrap_or("a task"));
                 }
               }
